@@ -21,6 +21,7 @@ import (
 	"os"
 	"os/exec"
 	"path/filepath"
+	"runtime/debug"
 	"sort"
 	"strings"
 	"syscall"
@@ -167,12 +168,35 @@ func crashDrive(ctx *Ctx) error {
 	timed := 3
 	fmt.Sscanf(ctx.Arg("timed", "3"), "%d", &timed)
 	r := rand.New(rand.NewSource(ctx.Seed))
+	if ctx.Replay != "" {
+		b, err := os.ReadFile(ctx.Replay)
+		if err != nil {
+			return err
+		}
+		var w struct {
+			Ops struct {
+				Family  string    `json:"family"`
+				Crash   crashPlan `json:"crash"`
+				History SDCase    `json:"history"`
+			} `json:"ops"`
+		}
+		if err := json.Unmarshal(b, &w); err != nil {
+			return err
+		}
+		replayCrash = &w.Ops.Crash
+		for i := 0; i < 5; i++ { // timed kills are not exactly reproducible: try a few times
+			runCrashCase(ctx, r, w.Ops.History, w.Ops.Family, prop, 0, 0)
+		}
+		return nil
+	}
 	for i := 0; i < ctx.Cases; i++ {
 		c := genCrashCase(r, family)
 		runCrashCase(ctx, r, c, family, prop, pairsPerCase, timed)
 	}
 	return nil
 }
+
+var replayCrash *crashPlan
 
 func pointFamily(family, point string) bool {
 	switch family {
@@ -214,11 +238,22 @@ func runCrashCase(ctx *Ctx, r *rand.Rand, c SDCase, family, prop string, pairsPe
 		}
 	}
 	r.Shuffle(len(all), func(i, j int) { all[i], all[j] = all[j], all[i] })
+	// the family's own points first (dataset-manager points for mgmt, transaction points for write)
+	own := "txn."
+	if family == "mgmt" {
+		own = "dsm."
+	}
+	sort.SliceStable(all, func(i, j int) bool {
+		return strings.HasPrefix(all[i].Point, own) && !strings.HasPrefix(all[j].Point, own)
+	})
 	if pairsPerCase > 0 && len(all) > pairsPerCase {
 		all = all[:pairsPerCase]
 	}
 	for i := 0; i < timed; i++ {
 		all = append(all, crashPlan{Point: "timed", KillUS: 200 + r.Intn(40000)})
+	}
+	if replayCrash != nil {
+		all = []crashPlan{*replayCrash}
 	}
 	ctx.Out.Stat("crash_points_available", int64(len(names)))
 	for _, cp := range all {
@@ -410,14 +445,18 @@ func applyOpToModel(m *model.Hub, op SDOp) {
 func judgeCrash(ctx *Ctx, id, prop string, c SDCase, res *writerResult, storeDir string) {
 	defer func() {
 		if p := recover(); p != nil {
-			ctx.Out.Viol(id, prop, "reopen-panic", fmt.Sprintf("panic while reopening / reading the store after the crash: %v", p), nil, nil, nil)
+			ctx.Out.Viol(id, prop, "reopen-panic", fmt.Sprintf("panic while reopening / reading the store after the crash: %v", p), nil, string(debug.Stack()), map[string]any{"acked": res.acked, "inflight": res.inflight})
 		}
 	}()
 	if _, err := os.Stat(storeDir); err != nil {
 		ctx.Out.Stat("crash_before_store_created", 1)
 		return
 	}
-	core := hub.OpenCore(storeDir)
+	core, oerr := hub.TryOpenCore(storeDir)
+	if oerr != nil {
+		ctx.Out.Viol(id, prop, "reopen-failed", "the store does not open after the crash: "+firstLine(oerr.Error()), nil, oerr.Error(), map[string]any{"acked": res.acked, "inflight": res.inflight})
+		return
+	}
 	closed := false
 	defer func() {
 		if !closed {
@@ -799,4 +838,11 @@ func postRestartWrites(ctx *Ctx, id, prop string, c SDCase, core *hub.Core, m *m
 	if msg := crossIndexInvariant(core); msg != "" {
 		ctx.Out.Viol(id, prop, "cross-index-"+strings.SplitN(msg, ":", 2)[0], "raw key scan after post-restart writes: "+msg, nil, nil, nil)
 	}
+}
+
+func firstLine(s string) string {
+	if i := strings.Index(s, "\n"); i >= 0 {
+		return s[:i]
+	}
+	return s
 }
